@@ -725,6 +725,13 @@ def c10(out):
             out.violation(f"c10ops case {c}: clause(s) {sorted(bc[c])}", paths.get(c, "n/a"))
     p2(out, "MCCompact.tla", ["MCCompact"] + (["MCCompact_t", "MCCompact_t3"] if out.tier == "thorough" else []))
     p3_compact(out, C10_CLAUSES, {"normal", "valid", "panic"})
+    if out.tier == "thorough":
+        # random behaviours of the composed model beyond the exhaustive bound (len <= 5, 3 letters)
+        sim = core.tlc_mc(MC / "MCCompact.tla", MC / "MCCompact_sim.cfg", out.prop, workers=10, timeout=900,
+                          coverage=False, simulate="num=30000", extra=["-depth", "150"])
+        if not sim["ok"]:
+            raise ToolError("simulation of MCCompact_sim found an invariant violation (specification regression):\n" + sim["out"][-2000:])
+        out.cov["simulation"] = {"cfg": "MCCompact_sim", "behaviours": 30000, "states_generated": sim["states"]}
     # unbounded-length argument for Replace's index arithmetic (Apalache, inductive invariant),
     # bound to the replayed Replace model by TLC (MCReplaceEq)
     st = core.apalache_inductive(SPEC / "proof" / "ReplaceInd.tla", out.prop)
